@@ -17,7 +17,7 @@ import ast
 import itertools
 import re
 
-from ..flow import Defs, Scope, bool_atoms, conjuncts, decide, guard_facts, iterations, rejections
+from ..flow import inline_predicates, Defs, Scope, bool_atoms, conjuncts, decide, guard_facts, iterations, rejections
 from ..loader import dotted, norm, walk_no_nested
 from ..report import Ctx
 from ..selftest import Mutant
@@ -145,10 +145,41 @@ def rule_reduction(ctx: Ctx) -> None:
         ctx.add("4-reduction", v, v.node, None, "UNDECIDED: Array[...] wrapping not found", key="wrap-guard")
     rj = [r for r in rejections(ctx.cfg(v), v.node, Defs(v)) if not r["dead"]]
     skipping = sorted({c for r in rj for c in r["conds"] if c.startswith("not ") and any(w in c for w in ("_mapspec_is_generated(", "_mapspec_with_internal_shape(", "not in output_types"))} | {c for r in rj for c in r["conds"] if " in output_types" in c})
-    ALLOWED_SKIPS = ("output_types", "output_annotation", "_mapspec_is_generated(", "_mapspec_with_internal_shape(", "isinstance(node, PipeFunc)", "is_type_compatible(", "_axis_is_reduced(", "is_object_array_type(", "Unresolvable", "NoAnnotation", "validate_type")
-    atoms_ = {text for r in rj for t_, truth in r["tests"] for text, _pol in conjuncts(t_, truth)}
-    extra = sorted(c for c in atoms_ if not any(a_ in c for a_ in ALLOWED_SKIPS))
-    ctx.tri("4-reduction", v, v.node, bool(rj) and not extra, bool(extra), f"the rejection is only bypassed by the documented skips ({len(skipping)} recognised)", f"edges are additionally exempted from the type check when `{extra[0] if extra else ''}`", "skips not recognised", key="no-extra-skip")
+    # The rejection must be reached whenever the types are incompatible and none of the documented exemptions applies
+    # (producer not a PipeFunc / parameter not an output / auto-generated MapSpec / internal shape).  The guard conditions of
+    # the raise are evaluated under "no exemption applies, types incompatible" for every assignment of the other atoms.
+    import itertools
+
+    from ..flow import bool_atoms, bool_eval
+
+    def documented(atom: str) -> bool | None:
+        if "is_type_compatible(" in atom:
+            return False
+        if "_is_generated" in atom or "internal_shape" in atom:
+            return False
+        if re.search(r"\bin (output_types|\w+\.output_annotation)\b", atom) or atom.startswith("isinstance("):
+            return True
+        return None
+
+    local_helpers = {f_.name for f_ in P.functions_in(VAL)}
+    verdicts = []
+    for r in rj:
+        tests = [(inline_predicates(ctx, v, t_), truth) for t_, truth in r["tests"]]
+        atoms_ = sorted({a for t_, _tr in tests for a in bool_atoms(t_)})
+        env0 = {a: documented(a) for a in atoms_ if documented(a) is not None}
+        free = [a for a in atoms_ if a not in env0]
+        opaque = [a for a in free if any(re.search(rf"\b{re.escape(h)}\(", a) for h in local_helpers)]
+        if len(free) > 8:
+            verdicts.append((None, free))
+            continue
+        escaping = [dict(zip(free, vals)) for vals in itertools.product((True, False), repeat=len(free))
+                    if any(bool_eval(t_, env0 | dict(zip(free, vals))) not in (truth, None) for t_, truth in tests)]
+        verdicts.append((True, []) if not escaping else ((None if opaque else False), opaque or free))
+    raw = [fr for ok_, fr in verdicts if ok_ is False]
+    und = [fr for ok_, fr in verdicts if ok_ is None]
+    ctx.tri("4-reduction", v, v.node, bool(rj) and all(ok_ is True for ok_, _fr in verdicts), bool(raw), f"incompatible types are rejected unless a documented exemption applies ({len(skipping)} documented skips recognised)",
+            f"edges are additionally exempted from the type check depending on `{raw[0][0] if raw else ''}`: incompatible annotations are accepted although no documented exemption applies",
+            f"skip condition(s) {[u[:2] for u in und][:1]} are computed by helpers this rule does not look into", key="no-extra-skip")
     air = P.func(f"{VAL}._axis_is_reduced")
     body = [s_ for s_ in air.node.body if not (isinstance(s_, ast.Expr) and isinstance(s_.value, ast.Constant))]
     tail = [s_ for s_ in body if isinstance(s_, ast.Return) or (isinstance(s_, ast.If) and any(isinstance(x, ast.Return) for x in ast.walk(s_)))]
